@@ -22,12 +22,12 @@ Wanted(v) == (Len(hist) % 2 = 0 /\ AnyApprovable) => v = "APPROVED"
 
 Step ==
     /\ Len(hist) < Depth
-    /\ \/ \E s, t \in E, root \in Roots, dom \in AttDoms, by \in {"name", "key"} :
+    /\ \/ \E s, t \in E, root \in Roots, dom \in AttDoms, by \in {"name", "key", "keypad"} :
             /\ Wanted(AttVerdict([s |-> db.s, t |-> db.t], s, t, dom))
             /\ Att(s, t, root, dom)
             /\ hist' = Append(hist, [op |-> "att", s |-> s, t |-> t, root |-> root, dom |-> dom, by |-> by,
                                      v |-> AttVerdict([s |-> db.s, t |-> db.t], s, t, dom), db |-> db'])
-       \/ \E slot \in E, root \in Roots, dom \in PropDoms, by \in {"name", "key"} :
+       \/ \E slot \in E, root \in Roots, dom \in PropDoms, by \in {"name", "key", "keypad"} :
             /\ Wanted(PropVerdict(db.ps, slot, dom))
             /\ Prop(slot, root, dom)
             /\ hist' = Append(hist, [op |-> "prop", slot |-> slot, root |-> root, dom |-> dom, by |-> by,
